@@ -180,19 +180,19 @@ void op_sign(const Case& c, TaskCtx& t, Outcome& o) {
     if (t.stats)
       t.stats->hit(cap < needed ? "c06.cap_below_needed" : cap < mx ? "c06.cap_between" : "c06.cap_full");
     if (cb && !cb->canaries_intact())
-      return (void)o.fail("C06.wrote_outside_buffer", "canary around the output buffer changed, cap=" + std::to_string(cap));
+      CHECK_FAIL("C06.wrote_outside_buffer", "canary around the output buffer changed, cap=" + std::to_string(cap));
     if (cap < needed && rc == 0)
-      return (void)o.fail("C06.success_with_short_buffer", std::string(p.name) + ": sign returned 0 with capacity " + std::to_string(cap) +
+      CHECK_FAIL("C06.success_with_short_buffer", std::string(p.name) + ": sign returned 0 with capacity " + std::to_string(cap) +
                                                                " < needed " + std::to_string(needed) + " (reported len " + std::to_string(len) + ")");
     if (cap >= mx && rc != 0)
-      return (void)o.fail("C06.failed_with_full_buffer", std::string(p.name) + ": sign failed with capacity " + std::to_string(cap) + " >= max");
+      CHECK_FAIL("C06.failed_with_full_buffer", std::string(p.name) + ": sign failed with capacity " + std::to_string(cap) + " >= max");
     if (rc == 0) {
       if (len > cap || len > mx)
-        return (void)o.fail("C06.len_exceeds_capacity", "reported length " + std::to_string(len) + " > capacity " + std::to_string(cap));
+        CHECK_FAIL("C06.len_exceeds_capacity", "reported length " + std::to_string(len) + " > capacity " + std::to_string(cap));
       if (len != needed)
-        return (void)o.fail("C06.len_not_bytes_written", "reported length " + std::to_string(len) + " differs from the signature length " + std::to_string(needed));
+        CHECK_FAIL("C06.len_not_bytes_written", "reported length " + std::to_string(len) + " differs from the signature length " + std::to_string(needed));
       if (!honest.empty() && memcmp(out, honest.data(), len) != 0)
-        return (void)o.fail("C06.bytes_differ", "signature bytes differ from the full-capacity signature");
+        CHECK_FAIL("C06.bytes_differ", "signature bytes differ from the full-capacity signature");
       // bytes beyond the reported length untouched
       size_t touched = cap;
       if (cb)
@@ -204,16 +204,16 @@ void op_sign(const Case& c, TaskCtx& t, Outcome& o) {
             break;
           }
       if (touched != cap)
-        return (void)o.fail("C06.wrote_beyond_len", "byte " + std::to_string(touched) + " beyond the reported length " + std::to_string(len) + " was modified");
+        CHECK_FAIL("C06.wrote_beyond_len", "byte " + std::to_string(touched) + " beyond the reported length " + std::to_string(len) + " was modified");
     }
   }
   // ---- C01 completeness
   if (has_chk(c, "c01")) {
     if (rc != 0)
-      return (void)o.fail("C01.sign_failed", std::string(p.name) + " " + family_tag(c) + " surf" + std::to_string(surf) + " mlen=" +
+      CHECK_FAIL("C01.sign_failed", std::string(p.name) + " " + family_tag(c) + " surf" + std::to_string(surf) + " mlen=" +
                                                  std::to_string(msg.size()) + " key=" + c.s("kpat") + ": sign returned " + std::to_string(rc));
     if (len > mx)
-      return (void)o.fail("C01.len_exceeds_max", "len " + std::to_string(len) + " > max " + std::to_string(mx));
+      CHECK_FAIL("C01.len_exceeds_max", "len " + std::to_string(len) + " > max " + std::to_string(mx));
     std::vector<std::string> nodes = G.cpu_seam && G.node_override.empty() ? std::vector<std::string>{"avx2", "sse2"}
                                                                            : std::vector<std::string>{G.node_override.empty() ? "avx2" : G.node_override};
     for (auto& nd : nodes)
@@ -224,7 +224,7 @@ void op_sign(const Case& c, TaskCtx& t, Outcome& o) {
         if (t.stats)
           t.stats->hit("c01.verify");
         if (v != 0)
-          return (void)o.fail("C01.honest_signature_rejected", std::string(p.name) + " signed on " + family_tag(c) + " surf" + std::to_string(surf) +
+          CHECK_FAIL("C01.honest_signature_rejected", std::string(p.name) + " signed on " + family_tag(c) + " surf" + std::to_string(surf) +
                                                                    ", rejected on node " + nd + " surf" + std::to_string(vs) + " mlen=" + std::to_string(msg.size()));
       }
   }
@@ -241,12 +241,12 @@ void op_sign(const Case& c, TaskCtx& t, Outcome& o) {
       size_t d = 0;
       while (d < ms.size() && d < sig.size() && ms[d] == sig[d])
         d++;
-      return (void)o.fail("C03.differs_from_specification", std::string(p.name) + " " + family_tag(c) + " mlen=" + std::to_string(msg.size()) + ": len " +
+      CHECK_FAIL("C03.differs_from_specification", std::string(p.name) + " " + family_tag(c) + " mlen=" + std::to_string(msg.size()) + ": len " +
                                                                 std::to_string(sig.size()) + " vs model " + std::to_string(ms.size()) + ", first difference at byte " +
                                                                 std::to_string(d));
     }
   } else if (has_chk(c, "c03") && rc != 0)
-    return (void)o.fail("C03.sign_failed", std::string(p.name) + ": sign returned " + std::to_string(rc));
+    CHECK_FAIL("C03.sign_failed", std::string(p.name) + ": sign returned " + std::to_string(rc));
   // ---- C09 only what the protocol permits
   if (has_chk(c, "c09") && rc == 0) {
     model::Trace tr;
@@ -258,7 +258,7 @@ void op_sign(const Case& c, TaskCtx& t, Outcome& o) {
       if (t.stats)
         t.stats->hit("c09.secret_scanned");
       if (s.data.size() >= 16 && memmem(sig.data(), sig.size(), s.data.data(), s.data.size()))
-        return (void)o.fail("C09.secret_in_signature", std::string(p.name) + ": " + s.what + " occurs in the signature");
+        CHECK_FAIL("C09.secret_in_signature", std::string(p.name) + ": " + s.what + " occurs in the signature");
     }
     if (t.stats) {
       t.stats->hit("c09.signatures");
@@ -273,32 +273,32 @@ void op_sign(const Case& c, TaskCtx& t, Outcome& o) {
     // revealing is complete: the verifier reconstructs every opened party (accepts)
     int v = cleancall([&] { return s_verify(0, k, msg.data(), msg.size(), sig.data(), sig.size()); });
     if (v != 0)
-      return (void)o.fail("C09.opened_data_insufficient", std::string(p.name) + ": verifier cannot reconstruct the opened parties (rejects)");
+      CHECK_FAIL("C09.opened_data_insufficient", std::string(p.name) + ": verifier cannot reconstruct the opened parties (rejects)");
     // opened-party data only: the signature is exactly the model's, whose construction writes nothing else
     if (ms != sig)
-      return (void)o.fail("C09.layout_differs_from_model", std::string(p.name) + ": signature bytes differ from the reference construction");
+      CHECK_FAIL("C09.layout_differs_from_model", std::string(p.name) + ": signature bytes differ from the reference construction");
   }
   // ---- C13 advertised maximum
   if (has_chk(c, "c13")) {
     if (rc != 0)
-      return (void)o.fail("C13.sign_failed_at_advertised_size", std::string(p.name) + " och=" + c.s("och") + ": sign failed with a buffer of the advertised size " +
+      CHECK_FAIL("C13.sign_failed_at_advertised_size", std::string(p.name) + " och=" + c.s("och") + ": sign failed with a buffer of the advertised size " +
                                                                     std::to_string(cap));
     if (len > mx)
-      return (void)o.fail("C13.len_exceeds_advertised", "len " + std::to_string(len) + " > advertised " + std::to_string(mx));
+      CHECK_FAIL("C13.len_exceeds_advertised", "len " + std::to_string(len) + " > advertised " + std::to_string(mx));
     if (p.unruh && len != mx)
-      return (void)o.fail("C13.unruh_not_exact", std::string(p.name) + ": Unruh signature length " + std::to_string(len) + " != advertised " + std::to_string(mx));
+      CHECK_FAIL("C13.unruh_not_exact", std::string(p.name) + ": Unruh signature length " + std::to_string(len) + " != advertised " + std::to_string(mx));
     if (forced) {
       size_t ml = p.kkw ? model::kkw_sig_size(p, ch.C, ch.P) : model::zkb_sig_size(p, ch.e);
       if (t.stats)
         t.stats->hit("c13.forced_challenge");
       if (ml != len)
-        return (void)o.fail("C13.len_differs_from_size_model", std::string(p.name) + " och=" + c.s("och") + ": len " + std::to_string(len) + " vs size model " +
+        CHECK_FAIL("C13.len_differs_from_size_model", std::string(p.name) + " och=" + c.s("och") + ": len " + std::to_string(len) + " vs size model " +
                                                                    std::to_string(ml));
       if (t.stats && len == model::true_max_sig_size(p))
         t.stats->hit("c13.reached_true_maximum");
       int v = cleancall([&] { return s_verify(0, k, msg.data(), msg.size(), sig.data(), sig.size()); });
       if (v != 0)
-        return (void)o.fail("C13.forced_signature_rejected", std::string(p.name) + " och=" + c.s("och") + ": signature under forced challenge does not verify");
+        CHECK_FAIL("C13.forced_signature_rejected", std::string(p.name) + " och=" + c.s("och") + ": signature under forced challenge does not verify");
     }
   }
 }
@@ -380,7 +380,7 @@ bool apply_wire_fault(const Case& c, const model::Params& p, const model::Key& k
     d.fault_desc = "truncated by " + std::to_string(cut) + " bytes";
     stat("truncate");
   } else if (wf == "extend") {
-    size_t n = 1 + (size_t)(c.u("n") % 96);
+    size_t n = (c.u("n") & 1) ? 1 + (size_t)((c.u("n") >> 1) % 4) : 1 + (size_t)((c.u("n") >> 1) % 96); // half of them 1..4 bytes
     std::string pat = c.s("pat", "zero");
     for (size_t i = 0; i < n; i++)
       d.sig.push_back(pat == "zero" ? 0 : pat == "head" ? sig[i % len] : (uint8_t)(r.next() >> 56));
@@ -462,6 +462,36 @@ bool apply_wire_fault(const Case& c, const model::Params& p, const model::Key& k
       d.fault_desc = "delivered under parameter set " + std::string(qp->name);
     }
     stat("misroute");
+  } else if (wf == "reroll") {
+    // structurally well-formed garbage: keep the challenge (hence every offset) and re-roll every other field,
+    // padding bits left zero, so that parsing succeeds and the verifier goes all the way
+    auto lay = model::sig_layout(p, sig);
+    if (lay.empty()) {
+      o.skipped = true;
+      return false;
+    }
+    bool only_some = c.u("n") & 1; // either everything or one random field
+    size_t pickf = 1 + (size_t)(c.u("which") % (lay.size() - 1));
+    for (size_t fi = 0; fi < lay.size(); fi++) {
+      auto& f = lay[fi];
+      if (f.name == "challenge" || f.len == 0 || (only_some && fi != pickf))
+        continue;
+      for (size_t i = 0; i < f.len; i++)
+        d.sig[f.off + i] = (uint8_t)(r.next() >> 56);
+      if (f.padbits)
+        d.sig[f.off + f.len - 1] &= (uint8_t)(0xff << f.padbits);
+    }
+    d.fault_desc = only_some ? "field '" + lay[pickf].name + "' re-rolled (well-formed)" : "every field but the challenge re-rolled (well-formed)";
+    stat("reroll_wellformed");
+  } else if (wf == "zerosig") {
+    if (p.kkw) {
+      o.skipped = true;
+      return false;
+    }
+    std::vector<uint8_t> e0(p.T, 0);
+    d.sig.assign(model::zkb_sig_size(p, e0), 0); // parses: all-zero challenge is canonical, all padding zero
+    d.fault_desc = "all-zero signature of the all-zero-challenge length";
+    stat("zero_signature");
   } else if (wf == "arbitrary") {
     size_t mx = picnic_signature_size(p.id);
     size_t n = (size_t)(c.u("n") % (mx + 65));
@@ -505,7 +535,23 @@ void op_verify(const Case& c, TaskCtx& t, Outcome& o) {
     return;
   }
   Delivered d;
-  if (!apply_wire_fault(c, p, k, msg, hi.sig, d, t, o))
+  if (c.s("wf") == "nearmiss") {
+    // a cheating prover who knows (sk, pt) signs - per specification, with the reference model - for a public key whose
+    // ciphertext differs from LowMC_sk(pt) in one bit; the specification's verifier rejects (outputs do not match C')
+    model::Key k2 = k;
+    size_t b = (size_t)(c.u("bit") % (uint64_t)p.n);
+    if (c.u("n") & 1)
+      b = (size_t)p.n - 1 - (size_t)((c.u("bit") >> 8) % 8); // the ragged end of the field
+    k2.C[b >> 3] ^= (uint8_t)(0x80 >> (b & 7));
+    d.sig = model::sign(p, k2.sk, k2.C, k2.pt, msg);
+    d.msg = msg;
+    d.pk = model::ser_pk(k2);
+    d.vparam = p.id;
+    d.intact = false;
+    d.fault_desc = "a specification-conforming signature for a public key whose ciphertext bit " + std::to_string(b) + " is not the LowMC output";
+    if (t.stats)
+      t.stats->hit("fault.wire_near_miss_public_key");
+  } else if (!apply_wire_fault(c, p, k, msg, hi.sig, d, t, o))
     return;
   if (d.vparam != param && surf == 1)
     surf = 0; // misrouting is expressed through the parameter byte of the generic surface
@@ -555,12 +601,12 @@ void op_verify(const Case& c, TaskCtx& t, Outcome& o) {
   bool same = edge ? (sbuf.n == d.sig.size() && !memcmp(sbuf.p, d.sig.data(), d.sig.size()) && !memcmp(mbuf.p, d.msg.data(), d.msg.size()))
                    : (sig_copy == d.sig && msg_copy == d.msg);
   if (!same || pkst != pk_before)
-    return (void)o.fail("C05.const_input_modified", std::string(vp.name) + ": verify modified its const input (" + d.fault_desc + ")");
+    CHECK_FAIL("C05.const_input_modified", std::string(vp.name) + ": verify modified its const input (" + d.fault_desc + ")");
   if (d.intact && rc != 0)
-    return (void)o.fail(c.s("sigsrc") == "model" ? "C02.valid_signature_rejected" : "C01.honest_signature_rejected",
+    CHECK_FAIL(c.s("sigsrc") == "model" ? "C02.valid_signature_rejected" : "C01.honest_signature_rejected",
                         std::string(p.name) + " " + family_tag(c) + " surf" + std::to_string(surf) + ": intact delivery rejected, mlen=" + std::to_string(msg.size()));
   if (!d.intact && rc == 0)
-    return (void)o.fail("C02.accepted_altered", std::string(vp.name) + " " + family_tag(c) + " surf" + std::to_string(surf) + ": accepted although " + d.fault_desc);
+    CHECK_FAIL("C02.accepted_altered", std::string(vp.name) + " " + family_tag(c) + " surf" + std::to_string(surf) + ": accepted although " + d.fault_desc);
 }
 
 // ------------------------------------------------------------------------------------------------ corrupted key -> sign (C12)
@@ -648,7 +694,7 @@ void op_signbad(const Case& c, TaskCtx& t, Outcome& o) {
     if (rc != 0) {
       for (size_t i = 0; i < sm.size(); i++)
         if (sm[i] != fill)
-          return (void)o.fail("C12.wrote_output_on_refusal", std::string(p.name) + " NIST surface: signed-message buffer modified although signing was refused");
+          CHECK_FAIL("C12.wrote_output_on_refusal", std::string(p.name) + " NIST surface: signed-message buffer modified although signing was refused");
     } else if (smlen >= 4 + msg.size()) {
       len = (size_t)smlen - 4 - msg.size();
       memcpy(cb.p(), sm.data() + 4 + msg.size(), std::min(len, cap));
@@ -668,21 +714,21 @@ void op_signbad(const Case& c, TaskCtx& t, Outcome& o) {
                    "|" + (rc == 0 ? "signed" : "refused"));
   }
   if (!cb.canaries_intact())
-    return (void)o.fail("C12.wrote_outside_buffer", "canary around the output buffer changed");
+    CHECK_FAIL("C12.wrote_outside_buffer", "canary around the output buffer changed");
   if (!expect_ok) {
     if (rc == 0)
-      return (void)o.fail("C12.signed_with_inconsistent_key", std::string(p.name) + " " + family_tag(c) + " surf" + std::to_string(surf) + ": sign returned 0 for a key corrupted at bit(s) " +
+      CHECK_FAIL("C12.signed_with_inconsistent_key", std::string(p.name) + " " + family_tag(c) + " surf" + std::to_string(surf) + ": sign returned 0 for a key corrupted at bit(s) " +
                                                                   c.s("cf") + " (0-7 parameter byte, then sk, C, pt)");
     if (surf != 2 && cb.first_touched_from(0) != cap)
-      return (void)o.fail("C12.wrote_output_on_refusal", std::string(p.name) + ": output buffer modified at byte " + std::to_string(cb.first_touched_from(0)) +
+      CHECK_FAIL("C12.wrote_output_on_refusal", std::string(p.name) + ": output buffer modified at byte " + std::to_string(cb.first_touched_from(0)) +
                                                              " although signing was refused");
   } else {
     if (rc != 0)
-      return (void)o.fail("C12.refused_consistent_key", std::string(p.name) + ": key is consistent under parameter byte " + std::to_string(pb) + " but signing was refused");
+      CHECK_FAIL("C12.refused_consistent_key", std::string(p.name) + ": key is consistent under parameter byte " + std::to_string(pb) + " but signing was refused");
     bytes sig(cb.p(), cb.p() + std::min(len, cap));
     int v = cleancall([&] { return s_verify(0, kq, msg.data(), msg.size(), sig.data(), sig.size()); });
     if (v != 0)
-      return (void)o.fail("C12.signature_of_consistent_key_rejected", "signature made with a consistent key does not verify under parameter byte " + std::to_string(pb));
+      CHECK_FAIL("C12.signature_of_consistent_key_rejected", "signature made with a consistent key does not verify under parameter byte " + std::to_string(pb));
   }
 }
 } // namespace
